@@ -188,8 +188,8 @@ def c04() -> List[M]:
         M("C04", "tcp-connect-retry-no-increment", P, "                logger.debug(\"Connection refused error.\")\n                self._retry += 1\n", "                logger.debug(\"Connection refused error.\")\n", "C04.R4"),
         M("C04", "tcp-retry-resets-counter", P, "                    logger.debug(\"Connection broken error.\")\n                self._retry += 1\n", "                    logger.debug(\"Connection broken error.\")\n                self._retry += 1\n                self._retry = 0\n", "C04.R4"),
         M("C04", "max-retries-future-left-pending", P, "        self.response_future.set_exception(MaxRetriesException)\n", "", "C04.R4"),
-        M("C04", "udp-exhausted-budget-retries-anyway", P, "                return await self.send_request(command)\n            return self._max_retries_reached()\n        finally:\n            if self._lock and self._lock.locked():\n                self._lock.release()\n            if not self.keep_alive:",
-          "                return await self.send_request(command)\n            return await self.send_request(command)\n        finally:\n            if self._lock and self._lock.locked():\n                self._lock.release()\n            if not self.keep_alive:", "C04.R4"),
+        M("C04", "udp-exhausted-budget-retries-anyway", P, "                return await self.send_request(command)\n            return self._max_retries_reached()\n        except OSError:\n            self._retry = 0",
+          "                return await self.send_request(command)\n            return await self.send_request(command)\n        except OSError:\n            self._retry = 0", "C04.R4"),
         M("C04", "tcp-connect-unbounded", P, "            await asyncio.wait_for(self._connect(), timeout=5)", "            await self._connect()", "C04.R5"),
         M("C04", "tcp-connect-bound-50s", P, "            await asyncio.wait_for(self._connect(), timeout=5)", "            await asyncio.wait_for(self._connect(), timeout=50)", "C04.R5"),
         M("C04", "benign-budget-test-flipped", P, "            if self._retry < self.retries:\n                self._retry += 1\n                if self._lock and self._lock.locked():\n                    self._lock.release()\n                if not self.keep_alive:",
